@@ -230,4 +230,73 @@ theorem okOrder_forget (w : List Msg) (k k' : Nat → Bool)
       simp only [okOrder] at ho ⊢
       exact ih _ _ htail ho
 
+theorem Live.congr {y y' : Ep} {w w' : List Msg} {p q : Nat}
+    (hl : lookup y'.ports q = lookup y.ports q) (hpo : Msg.portOpened q p ∈ w' ↔ Msg.portOpened q p ∈ w) :
+    Live y' w' p q ↔ Live y w p q := by
+  simp only [Live, hl, hpo]
+
+/-- a sender-side port view only looks at the partner entry and at what the wire holds for it -/
+theorem TxOk.congr {y y' : Ep} {w w' : List Msg} {p : Nat} {c : Connected}
+    (hl : lookup y'.ports c.remote = lookup y.ports c.remote)
+    (hsf : cntSF w' c.remote = cntSF w c.remote) (hrc : cntRC w' c.remote = cntRC w c.remote)
+    (hrf : cntRF w' c.remote = cntRF w c.remote)
+    (hpo : Msg.portOpened c.remote p ∈ w' ↔ Msg.portOpened c.remote p ∈ w)
+    (h : TxOk y w p c) : TxOk y' w' p c := by
+  have hL := Live.congr (p := p) hl hpo
+  exact ⟨by rw [hL, hsf, hl]; exact h.sd0, by rw [hL, hsf, hl]; exact h.sd1,
+         by rw [hL, hrf, hl]; exact h.rd0, by rw [hL, hrf, hl]; exact h.rd1,
+         by rw [hrc, hl]; exact h.rc0⟩
+
+/-- the same with only the local flags and the remote port of the entry mattering -/
+theorem TxOk.flags {y : Ep} {w : List Msg} {p : Nat} {c c' : Connected}
+    (h1 : c'.remote = c.remote) (h2 : c'.senderDropped = c.senderDropped)
+    (h3 : c'.receiverDropped = c.receiverDropped) (h4 : c'.receiverClosed = c.receiverClosed)
+    (h : TxOk y w p c) : TxOk y w p c' :=
+  ⟨by rw [h1, h2]; exact h.sd0, by rw [h1, h2]; exact h.sd1, by rw [h1, h3]; exact h.rd0,
+   by rw [h1, h3]; exact h.rd1, by rw [h1, h3, h4]; exact h.rc0⟩
+
+theorem opened_false_of_not_resp (w : List Msg) (q : Nat) (h : q ∉ respPorts w) : opened w q = false := by
+  cases ho : opened w q with
+  | false => rfl
+  | true =>
+    obtain ⟨sp, hm⟩ := (opened_iff w q).mp ho
+    exfalso; apply h
+    clear h ho
+    induction w with
+    | nil => simp at hm
+    | cons m w ih =>
+      rcases List.mem_cons.mp hm with hm | hm
+      · subst hm; simp [respPorts]
+      · rw [respPorts_cons]; exact List.mem_append.mpr (Or.inr (ih hm))
+
+/-- two answers for the same client port cannot both be in the wire -/
+theorem portOpened_unique (w : List Msg) (q p p' : Nat) (hnd : (respPorts w).Nodup)
+    (h1 : Msg.portOpened q p ∈ w) (h2 : Msg.portOpened q p' ∈ w) : p = p' := by
+  induction w with
+  | nil => simp at h1
+  | cons m w ih =>
+    rw [respPorts_cons] at hnd
+    have hnd' := (List.nodup_append.mp hnd).2.1
+    have hdis := (List.nodup_append.mp hnd).2.2
+    have hmem : ∀ p0, Msg.portOpened q p0 ∈ w → q ∈ respPorts w := by
+      intro p0 h
+      have := (opened_iff w q).mpr ⟨p0, h⟩
+      by_cases hq : q ∈ respPorts w
+      · exact hq
+      · rw [opened_false_of_not_resp w q hq] at this; simp at this
+    rcases List.mem_cons.mp h1 with a1 | a1 <;> rcases List.mem_cons.mp h2 with a2 | a2
+    · rw [← a2] at a1; injection a1
+    · subst a1; exact absurd rfl (hdis q (by simp [respPorts]) q (hmem _ a2))
+    · subst a2; exact absurd rfl (hdis q (by simp [respPorts]) q (hmem _ a1))
+    · exact ih hnd' a1 a2
+
+/-- **no third port**: at most one port of `x` has `y[q]` as its live partner -/
+theorem Live.unique {y : Ep} {w : List Msg} {p p' q : Nat} (hnd : (respPorts w).Nodup)
+    (h1 : Live y w p q) (h2 : Live y w p' q) : p = p' := by
+  rcases h1 with ⟨d, hd, rfl⟩ | ⟨hc, hp⟩ <;> rcases h2 with ⟨d', hd', rfl⟩ | ⟨hc', hp'⟩
+  · rw [hd] at hd'; injection hd' with h; injection h with h; rw [h]
+  · rw [hd] at hc'; simp at hc'
+  · rw [hd'] at hc; simp at hc
+  · exact portOpened_unique w q p p' hnd hp hp'
+
 end Remoc.Table.Sys
